@@ -108,6 +108,8 @@ class C05(PropertyCheck):
         "QipVerif.C05.schedule_den_partial_ins",
         "QipVerif.C05.schedule_den_C",
         "QipVerif.C05.schedule_den_C_rev",
+        "QipVerif.C05.schedule_den_C_safe",
+        "QipVerif.C05.safe_pair_commute",
         "QipVerif.C05.C05_counterexample_order",
         "QipVerif.C05.C05_counterexample_den",
         "QipVerif.C05.comm_rule_table",
